@@ -687,6 +687,7 @@ class Gen:
     def gen_handler(self, owner, cls):
         r = self.r
         sigs = [("poked", "onPoked", [("int", "int"), ("bool", "bool")], 2), ("fired", "onFired", [], 0),
+                ("tuned", "onTuned", [("int", "int"), ("int", "int"), ("bool", "bool")], 0),
                 ("renamed", "onRenamed", [("QString", "string"), ("int", "int")], 1)]
         if cls == "SimPanel":
             sigs.append(("raised", "onRaised", [("int", "int")], 0))
@@ -964,13 +965,26 @@ class Gen:
             p = r.choice(tys[ty])
             if any(b["target"] == p for b in o["bindings"]) or any(c[0] == p for c in o["consts"]):
                 continue
-            if not is_root and o not in real_objs and r.chance(0.12) and not any(b["target"] == "font" for b in o["bindings"]):
+            if not is_root and o not in real_objs and r.chance(0.15) and not any(b["target"] == "font" for b in o["bindings"]):
                 # grouped gadget binding mixing constant and dynamic members
-                o["bindings"].append({"target": "font", "sub": "family", "layer": 2, "body": {"kind": "expr", "expr": self.gen("string", 1)}})
-                if r.chance(0.6):
-                    o["bindings"].append({"target": "font", "sub": "pointSize", "layer": 2, "body": {"kind": "expr", "expr": ["bin", "int", "+", self.guarded("int", 0), ["lit", "int", 30]]}})
-                if r.chance(0.5):
-                    o["consts"].append(["font.bold", ["lit", "bool", True]])
+                # 1-4 dynamic members; names of equal length (family / italic / weight, pointSize / underline) on purpose
+                members = [("family", "string"), ("pointSize", "int"), ("bold", "bool"), ("italic", "bool"), ("weight", "int"), ("underline", "bool"), ("kerning", "bool")]
+                chosen = r.sample(members, r.randint(1, 4))
+                for mname, mty in chosen:
+                    if mty == "int":
+                        e = ["bin", "int", "+", ["bin", "int", "&", self.guarded("int", 0), ["lit", "int", 15]], ["lit", "int", 30]]
+                    elif mty == "bool":
+                        e = self.gen("bool", 1)
+                        if not has_read(e):
+                            e = self.dyn_bool()
+                    else:
+                        e = self.gen("string", 1)
+                        if not has_read(e):
+                            e = ["bin", "string", "+", self.guarded("string", 0), ["lit", "string", "!"]]
+                    o["bindings"].append({"target": "font", "sub": mname, "layer": 2, "body": {"kind": "expr", "expr": e}})
+                rest = [m for m in members if m not in chosen and m[1] == "bool"]
+                if rest and r.chance(0.5):
+                    o["consts"].append(["font." + rest[0][0], ["lit", "bool", True]])
                 count += 1
                 continue
             o["bindings"].append({"target": p, "sub": None, "layer": 2, "body": self.body(ty, r.randint(1, 3))})
@@ -1012,7 +1026,7 @@ def _b(target, expr, layer=2, sub=None):
 def doc_cascade(rng, type_name="Doc"):
     """33-70 bindings in a loop-free cascade of depth up to 40: w[k].mid1 reads w[k-1].mid1, so that bindings
     with indices on both sides of every 32-bit word boundary are on the stack together."""
-    n = rng.randint(20, 40)
+    n = rng.randint(20, 48)
     objs = []
     for k in range(n):
         o = _obj("w%02d" % k, rng.choice(["SimWidget", "SimWidget", "SimPanel"]))
@@ -1047,7 +1061,11 @@ def doc_observers(rng, type_name="Doc"):
         for j in range(k):
             base = "w%d" % rng.randint(1, n)
             pins.add((base, "peer"))
-            terms.append(["prop", ["prop", ["obj", base], "peer"], "intVal"])
+            t = ["prop", ["prop", ["obj", base], "peer"], "intVal"]
+            if rng.chance(0.5):
+                # the observe statement is only reached while a flag holds: the observer goes stale meanwhile
+                t = ["tern", ["prop", ["obj", "w%d" % rng.randint(1, n)], "flag"], t, ["lit", "int", j]]
+            terms.append(t)
         e = terms[0]
         for t in terms[1:]:
             e = ["bin", "int", "+", e, t]
